@@ -740,6 +740,24 @@ def diff_covered(orig_raw, alt_raw, sec_type):
     (va, why) = covered_view(alt_raw, sec_type)
     if va is None:
         return ('asb_malformed', 'security block undecodable: ' + str(why))
+    def block_sigs(views):
+        sigs = {}
+        for key in sorted(views.keys()):
+            sigs.setdefault(key[0], []).append(_hashable([views[key].get(name) for name in COVERED_KEYS]))
+        return [tuple(sigs[ordinal]) for ordinal in sorted(sigs.keys())]
+    (so, sa) = (block_sigs(vo), block_sigs(va))
+    if len(sa) < len(so):
+        # whole security blocks removed (or re-typed), the remaining ones unchanged: those targets are simply no
+        # longer protected
+        pos = 0
+        for sig in sa:
+            while pos < len(so) and so[pos] != sig:
+                pos += 1
+            if pos == len(so):
+                break
+            pos += 1
+        else:
+            return ('stripped', 'security block removed')
     if set(va.keys()) < set(vo.keys()):
         same = all(_hashable([vo[key].get(name) for name in COVERED_KEYS]) == _hashable([va[key].get(name) for name in COVERED_KEYS])
                    for key in va.keys())
